@@ -27,6 +27,19 @@ Further situations:
   brings the app back.
 * a decorated closure referenced only by a variable of its factory's frame, which a sibling closure (kept in a
   dict) deletes (`nonlocal fn; del fn`) or overwrites (`fn = None`): cell_make / cell_drop.
+* a state expression that names a second entity (pyscript.p3) through a seeded subset of the four documented name
+  forms - value, .old, attribute, .old.attribute - or lists it in watch= (kind "sx", spec["sx"]): every entity the
+  trigger subscribed to must be released again, whatever names led to it.
+* the new content of an edited file may be code, a comment only, or nothing at all (zero bytes), and the reload that
+  follows an edit / a deletion may name the file's global context (`pyscript.reload` with `global_ctx: file.<name>`)
+  instead of being argument-less: whatever the new content is, nothing of the previous content stays active.
+* a definition that fails part-way - a user decorator raises while it is applied - inside try/except, followed in the
+  same evaluation (the same file, the same service call, the same Jupyter cell / a later cell of the session) by an
+  ordinary decorated definition: the failed definition never runs and leaves nothing, the later one is active.
+* a Jupyter session (real kernel code behind a simulated TCP transport, sim.jupyter_net): cells define, redefine and
+  `del` decorated functions, the front end ends the session (shutdown_request); unloading the integration
+  deactivates the session's functions; a cell executed in a session that survived unload + set-up must not leave
+  anything behind at the next unload.
 """
 
 from __future__ import annotations
@@ -37,8 +50,9 @@ import copy
 import json
 import random
 
+from .. import jupyter_net as N
 from ..common import base_result, gen_cfg
-from ..world import World
+from ..world import HarnessError, World
 
 PROPERTY = "C09"
 LEVEL = "exploration"
@@ -47,11 +61,19 @@ RULE = (
     "decorator order) and <=20 lifecycle ops over closures in containers, file-level functions and the two files of "
     "an app in package form (edit / stop importing the sibling / delete or '#'-rename the main file / restore), "
     "including stops that land while a definition or a file's functions are still being started, each followed by "
-    "a probe round; distinct = scenario digest; non-trivial = at least one definition was deactivated and then probed"
+    "a probe round; a tenth trigger kind names a second entity through a seeded subset of the name forms value / "
+    ".old / attribute / .old.attribute or through watch=; edited files may become comment-only or empty and reloads "
+    "may name the file's context; definitions may be preceded by one that fails in a user decorator inside "
+    "try/except; 35% of the runs also drive a Jupyter session (cells that define / redefine / del functions, session "
+    "shutdown, cells in a session that survived unload + set-up); "
+    "distinct = scenario digest; non-trivial = at least one definition was deactivated and then probed"
 )
 ASSUMPTIONS = [
     "after every op the harness lets the loop settle, runs gc.collect() and settles again before probing (cycle "
-    "collection is not part of the property)",
+    "collection is not part of the property); for the same reason a file-level function whose @state_trigger has a "
+    "watch= argument is not defined twice in one file: validating watch= raises and catches an exception inside "
+    "voluptuous, whose traceback keeps the frames of the definition - and so the superseded function - in a "
+    "reference cycle until the collector runs, which cannot be placed between two definitions of one load",
     "the census compares tables by size per key (queues/listeners per entity, event type, topic, webhook id), "
     "service names, live tasks and pending timers; State.notify_var_last is not part of it",
     "after unload the three built-in pyscript services (reload, jupyter_kernel_start, generate_stubs) are don't-care",
@@ -77,6 +99,19 @@ ASSUMPTIONS = [
     "overwritten, never deleted with `del` - finding C09.cell_del on the unchanged code: `del` of a variable captured "
     "by a sibling closure marks it undefined but keeps the function object, so its triggers stay active; the other "
     "half of the runs keeps judging it",
+    "kind 'sx': the second entity pyscript.p3 is never changed by the probe round, and a change of it could not make "
+    "the expression true (pyscript.p0 is '0' between probe rounds), so whether an entity named only as "
+    "pyscript.p3.old / pyscript.p3.old.a3 is watched at all is not judged - only that whatever was subscribed is "
+    "released (census); watch= lists only the documented forms (entity names and attributes)",
+    "a reload that names a global context is only issued right after the write / deletion of that very file, so no "
+    "other change is pending (the documentation says other changes are ignored by such a reload)",
+    "Jupyter: the kernel's own tasks and listening sockets are not part of the census that is compared with the "
+    "pre-setup state (the documentation says sessions are not affected by reload and does not say what unload does "
+    "to the session itself); the functions of the session are: unload deactivates them",
+    "Jupyter: a function defined by a cell of a session that survived unload + set-up is don't-care in everything it "
+    "declares (the documentation does not say whether such a session is still usable) - but after the next unload "
+    "Home Assistant must be back to its baseline, and nothing of it may run after that; no cell is executed while "
+    "the integration is unloaded; Jupyter cells never declare the shared service name",
 ]
 TIERS = {
     "quick": {"runs": 500, "chunk": 17},
@@ -92,12 +127,21 @@ REACH_PROBES = ["redefined_in_slot", "closure_dropped_from_container", "containe
                 "stopped_service_start_had_more_decorators_to_start", "app_package_loaded", "app_file_edited",
                 "app_main_deleted_sibling_on_disk", "app_main_commented_sibling_on_disk", "app_sibling_no_longer_imported",
                 "app_restored", "unstarted_service_of_stopped_function_names_live_service",
-                "closure_referenced_by_cell_only", "cell_variable_deleted", "cell_variable_overwritten"]
+                "closure_referenced_by_cell_only", "cell_variable_deleted", "cell_variable_overwritten",
+                "second_entity_named_in_state_expression", "entity_named_only_as_old_attribute",
+                "entity_named_only_through_old_forms", "entity_listed_in_watch", "definition_naming_second_entity_removed",
+                "file_reloaded_by_name", "file_emptied", "file_emptied_and_reloaded_by_name", "file_comment_only",
+                "file_deleted_and_reloaded_by_name", "definition_after_failed_decorator_call",
+                "file_definition_after_failed_decorator_call", "jupyter_session_started", "jupyter_cell_defined_function",
+                "jupyter_function_redefined", "jupyter_function_deleted", "jupyter_session_shut_down",
+                "jupyter_functions_unloaded", "jupyter_cell_after_unload_and_setup",
+                "jupyter_cell_after_failed_decorator_call", "jupyter_stale_definition_unloaded"]
 # probes that describe the situation of a repaired defect (C09-F9); they can only fire while it is present
 SYMPTOM_PROBES = ["unstarted_service_of_stopped_function_names_live_service"]
 SHRINK_LISTS = [["ops"], ["spec", "templates"]]
 
-KINDS = ["ev", "st", "st2", "time", "per", "mqtt", "hook", "svc", "shr"]
+KINDS = ["ev", "st", "st2", "sx", "time", "per", "mqtt", "hook", "svc", "shr"]
+SX_FORMS = ["v", "old", "attr", "old_attr"]  # the documented names of an entity inside a state expression
 SLOTS = ["a", "b", "c"]
 FILES = ["ga", "gb"]
 APP = "pa"                       # the app in package form: apps/pa/__init__.py + apps/pa/sub.py
@@ -135,6 +179,15 @@ def gen(rng: random.Random, tier: str) -> dict:
     if rng.random() < 0.4:
         app = {"main": rng.randrange(len(templates)), "sub": rng.randrange(len(templates)),
                "imports": rng.random() < 0.9}
+    # kind "sx": the name forms through which its state expression mentions the second entity, or a watch= list/set
+    sx = {"forms": sorted(rng.sample(SX_FORMS, rng.choice([1, 1, 1, 2, 3])), key=SX_FORMS.index),
+          "watch": rng.choice([False, False, False, "list", "set"])}
+    if rng.random() < 0.3:
+        sx["forms"] = [rng.choice(["old_attr", "old_attr", "old"])]
+    # files whose decorated function is preceded by a definition that fails in a user decorator (inside try/except)
+    failfirst = [name for name in FILES if rng.random() < 0.15]
+    fail_pos = rng.choice(["top", "top", "bottom"])
+    jup = rng.random() < 0.35  # this run also drives a Jupyter session
     racing_ms = [0, 0.1, 0.4, 1, 3, 10, 25]
     # templates whose start really suspends (the injected suspension is inside the start of @service)
     suspending = [i for i, kinds in enumerate(templates) if "svc" in kinds or "shr" in kinds]
@@ -149,14 +202,45 @@ def gen(rng: random.Random, tier: str) -> dict:
         if roll < 0.07 and app is not None:
             # the app package: edit one of its files / remove the main file (the sibling stays on disk)
             sub = rng.random()
-            if sub < 0.3:
+            gone = next((op["kind"] == "app_remove_main" for op in reversed(ops)
+                         if op["kind"] in ("app_remove_main", "app_edit") and op.get("part", "main") == "main"), False)
+            if sub < (0.65 if gone else 0.3):
+                # (after the main file was removed: more often written again, which brings the app back)
                 ops.append({"kind": "app_edit", "part": "main", "tmpl": tmpl, "imports": rng.random() < 0.75})
-            elif sub < 0.5:
+            elif sub < (0.8 if gone else 0.5):
                 ops.append({"kind": "app_edit", "part": "sub", "tmpl": tmpl})
             else:
                 ops.append({"kind": "app_remove_main", "how": rng.choice(["delete", "comment"])})
+        elif jup and 0.10 <= roll < 0.30:
+            sub = rng.random()
+
+            def cell():
+                # a cell that defines (or redefines) a decorated function; "fresh": if the session has survived an
+                # unload, shut it down and start a new one first (otherwise the surviving session is used)
+                ops.append({"kind": "jup_make", "slot": rng.choice(SLOTS[:2]), "tmpl": tmpl, "fresh": rng.random() < 0.3})
+                if rng.random() < 0.15:
+                    ops[-1]["after_failed"] = True
+
+            used = sorted({op["slot"] for op in ops if op["kind"] == "jup_make"})
+            if sub < 0.40 or not used:
+                cell()
+            elif sub < 0.55:
+                ops.append({"kind": "jup_del", "slot": rng.choice(used)})
+            elif sub < 0.70:
+                ops.append({"kind": "jup_end"})
+            else:
+                # the config entry is unloaded and set up again while the front end stays connected
+                ops.append({"kind": "unload"})
+                ops.append({"kind": "setup"})
+                if rng.random() < 0.7:
+                    cell()
+                    if rng.random() < 0.5:
+                        ops.append({"kind": "unload"})  # ... and once more, after a cell of the surviving session
+                        ops.append({"kind": "setup"})
         elif roll < 0.30:
             ops.append({"kind": "make", "slot": rng.choice(SLOTS), "tmpl": tmpl})
+            if rng.random() < 0.12:
+                ops[-1]["after_failed"] = True
         elif roll < 0.34:
             # the decorated closure is referenced only by a variable of its factory's frame (a cell), which a sibling
             # closure kept in a dict can delete or overwrite
@@ -165,6 +249,8 @@ def gen(rng: random.Random, tier: str) -> dict:
         elif roll < 0.39:
             n_list += 1
             ops.append({"kind": "append", "tmpl": tmpl})
+            if rng.random() < 0.12:
+                ops[-1]["after_failed"] = True
         elif roll < 0.42:
             # a decorated closure is created and its only reference dropped at once, in the same call
             ops.append({"kind": "make_lost", "tmpl": tmpl})
@@ -177,8 +263,16 @@ def gen(rng: random.Random, tier: str) -> dict:
             ops.append({"kind": "clear"})
         elif roll < 0.65:
             ops.append({"kind": "file_edit", "name": rng.choice(FILES), "tmpl": tmpl})
+            sub = rng.random()
+            if sub < 0.26:
+                # the file stays but nothing is left in it: zero bytes, or only a comment
+                ops[-1]["content"] = "empty" if sub < 0.18 else "comment"
+            if rng.random() < 0.5:
+                ops[-1]["reload"] = "name"  # pyscript.reload with global_ctx: file.<name>
         elif roll < 0.69:
             ops.append({"kind": "file_delete", "name": rng.choice(FILES)})
+            if rng.random() < 0.5:
+                ops[-1]["reload"] = "name"
         elif roll < 0.74:
             ops.append({"kind": "reload"})
         elif roll < 0.81:
@@ -202,15 +296,43 @@ def gen(rng: random.Random, tier: str) -> dict:
                         "tmpl2": rng.randrange(len(templates)), "after_ms": rng.choice(racing_ms)})
         else:
             ops.append({"kind": "stall", "s": rng.choice([0.05, 0.5])})
-    return normalize({"cfg": cfg, "spec": {"templates": templates, "files": files, "redef": redef, "app": app},
+    return normalize({"cfg": cfg, "spec": {"templates": templates, "files": files, "redef": redef, "app": app,
+                                           "sx": sx, "failfirst": failfirst, "fail_pos": fail_pos},
                       "ops": ops})
 
 
 # ------------------------------------------------------------------ rendering
-def _decorators(kinds: list, slot_expr: str) -> list[str]:
+SX_NAME = {"v": "pyscript.p3", "old": "pyscript.p3.old", "attr": "pyscript.p3.a3", "old_attr": "pyscript.p3.old.a3"}
+SX_TERM = {"v": "pyscript.p3 != 'zz'", "old": "pyscript.p3.old != 'zz'", "attr": "pyscript.p3.a3 != 5",
+           "old_attr": "pyscript.p3.old.a3 != 5"}
+
+
+def _sx_forms(sx: dict | None) -> list:
+    sx = sx or {}
+    forms = [f for f in sx.get("forms") or ["old_attr"] if f in SX_FORMS]
+    if sx.get("watch"):
+        forms = [f for f in forms if f in ("v", "attr")] or ["attr"]  # watch=: entity names and attributes only
+    return forms or ["old_attr"]
+
+
+def _sx_decorator(sx: dict | None) -> str:
+    """State trigger on pyscript.p0 whose expression (or watch=) also names the second entity pyscript.p3; every
+    term on pyscript.p3 is true for its constant state 'ok' / a3=1 and for None."""
+    forms = _sx_forms(sx)
+    how = (sx or {}).get("watch")
+    if how:
+        names = ", ".join(repr(n) for n in ["pyscript.p0"] + [SX_NAME[f] for f in forms])
+        lit = "[" + names + "]" if how == "list" else "{" + names + "}"
+        return f"@state_trigger(\"pyscript.p0 == '1'\", watch={lit})"
+    return "@state_trigger(\"pyscript.p0 == '1' and " + " and ".join(SX_TERM[f] for f in forms) + "\")"
+
+
+def _decorators(kinds: list, slot_expr: str, sx: dict | None = None) -> list[str]:
     out = []
     for kind in kinds:
-        if kind == "ev":
+        if kind == "sx":
+            out.append(_sx_decorator(sx))
+        elif kind == "ev":
             out.append("@event_trigger('probe_ev')")
         elif kind == "st":
             out.append("@state_trigger(\"pyscript.p0 == '1' and pyscript.p0.old == '0' and pyscript.p0.a0 != 5\", 'pyscript.p1.a1')")
@@ -235,23 +357,57 @@ def _decorators(kinds: list, slot_expr: str) -> list[str]:
 OLD_GEN = 1000  # generation numbers >= OLD_GEN: the first of two same-named definitions in one file
 
 
-def _file_src(name: str, tmpl_idx: int, kinds: list, gen_no: int, redef: bool = False) -> str:
+BAD_DECO = ["def bad_deco(func):", "    raise ValueError('bad decorator')", ""]
+
+
+def _failed_def(kinds: list, slot_expr: str, mark_key: str, gen_expr: str, tmpl_idx: int, sx, pos: str, ind: str) -> list:
+    """A decorated definition that fails part-way - the user decorator bad_deco raises while it is applied - and is
+    caught by the script.  It is never bound to a name: it must never run and must leave nothing behind."""
+    decs = _decorators(kinds, slot_expr, sx)
+    decs = decs + ["@bad_deco"] if pos == "bottom" else ["@bad_deco"] + decs
+    return ([ind + "try:"] + [ind + "    " + d for d in decs]
+            + [ind + "    def victim(**kw):",
+               ind + f"        sim.mark('run', {mark_key}, {gen_expr}, {tmpl_idx}, kw.get('trigger_type'), kw.get('trigger_time'), kw.get('var_name'))",
+               ind + "except ValueError:",
+               ind + "    pass"])
+
+
+def _file_src(name: str, tmpl_idx: int, kinds: list, gen_no: int, redef: bool = False, spec: dict | None = None) -> str:
+    spec = spec or {}
+    sx = spec.get("sx")
     lines = [f"# generation {gen_no}", f"SLOT = 'file_{name}'"]
+    if name in (spec.get("failfirst") or []):
+        lines += BAD_DECO + _failed_def(kinds, "'V' + SLOT", "'V' + SLOT", str(gen_no), tmpl_idx, sx,
+                                        spec.get("fail_pos", "top"), "") + [""]
+    if redef and "sx" in kinds and (sx or {}).get("watch"):
+        # (the validation of a watch= argument leaves the frames of the definition in a reference cycle - an exception
+        # caught inside voluptuous - so the superseded definition of the same load would stay referenced until the
+        # cycle collector runs: cycle collection is not part of the property, see ASSUMPTIONS)
+        redef = False
     if redef:
         # the same function is defined twice in the file: only the second definition is referenced once the file
         # has loaded, so only it may be active
-        lines += _decorators(kinds, "SLOT")
+        lines += _decorators(kinds, "SLOT", sx)
         lines += [f"def top_{name}(**kw):",
                   f"    sim.mark('run', 'file_{name}', {OLD_GEN + gen_no}, {tmpl_idx}, kw.get('trigger_type'), kw.get('trigger_time'), kw.get('var_name'))",
                   ""]
-    lines += _decorators(kinds, "SLOT")
+    lines += _decorators(kinds, "SLOT", sx)
     lines += [f"def top_{name}(**kw):",
               f"    sim.mark('run', 'file_{name}', {gen_no}, {tmpl_idx}, kw.get('trigger_type'), kw.get('trigger_time'), kw.get('var_name'))",
               ""]
     return "\n".join(lines) + "\n"
 
 
-def _app_src(part: str, tmpl_idx: int, kinds: list, gen_no: int, imports: bool = True) -> str:
+def _file_text(name: str, op_content: str, tmpl_idx: int, kinds: list, gen_no: int, redef: bool, spec: dict) -> str:
+    """The new content of an edited file: code, zero bytes, or a comment only."""
+    if op_content == "empty":
+        return ""
+    if op_content == "comment":
+        return f"# generation {gen_no}: nothing left in here\n"
+    return _file_src(name, tmpl_idx, kinds, gen_no, redef, spec)
+
+
+def _app_src(part: str, tmpl_idx: int, kinds: list, gen_no: int, imports: bool = True, sx: dict | None = None) -> str:
     """One of the two files of the app package: the main file (imports the sibling unless told not to) or the sibling."""
     key = f"app_{part}"
     lines = [f"# generation {gen_no}"]
@@ -260,7 +416,7 @@ def _app_src(part: str, tmpl_idx: int, kinds: list, gen_no: int, imports: bool =
     lines.append(f"SLOT = '{key}'")
     if part == "sub":
         lines += ["", "def helper():", "    return 17", ""]
-    lines += _decorators(kinds, "SLOT")
+    lines += _decorators(kinds, "SLOT", sx)
     lines += [f"def top_{key}(**kw):",
               f"    sim.mark('run', '{key}', {gen_no}, {tmpl_idx}, kw.get('trigger_type'), kw.get('trigger_time'), kw.get('var_name'))",
               ""]
@@ -269,21 +425,23 @@ def _app_src(part: str, tmpl_idx: int, kinds: list, gen_no: int, imports: bool =
 
 def render(scn: dict) -> dict:
     spec = scn["spec"]
+    sx = spec.get("sx")
     lines = ["holder = {}", "lst = []", ""]
     for idx, kinds in enumerate(spec["templates"]):
         lines.append(f"def fact{idx}(slot, gen):")
-        for dec in _decorators(kinds, "slot"):
+        for dec in _decorators(kinds, "slot", sx):
             lines.append("    " + dec)
         lines.append("    def fn(**kw):")
         lines.append(f"        sim.mark('run', slot, gen, {idx}, kw.get('trigger_type'), kw.get('trigger_time'), kw.get('var_name'))")
         lines.append("    return fn")
         lines.append("")
     cells = any(op["kind"] == "cell_make" for op in scn["ops"])
+    failing = any(op.get("after_failed") and op["kind"] in ("make", "append") for op in scn["ops"])
     if cells:
         lines += ["cells = {}", ""]
         for idx, kinds in enumerate(spec["templates"]):
             lines.append(f"def cell{idx}(slot, gen):")
-            for dec in _decorators(kinds, "slot"):
+            for dec in _decorators(kinds, "slot", sx):
                 lines.append("    " + dec)
             lines.append("    def fn(**kw):")
             lines.append(f"        sim.mark('run', slot, gen, {idx}, kw.get('trigger_type'), kw.get('trigger_time'), kw.get('var_name'))")
@@ -295,9 +453,19 @@ def render(scn: dict) -> dict:
                       "            fn = None",
                       "    return dropper",
                       ""]
-    lines += ["@service", "def lifecycle(cmd=None, slot=None, gen=None, tmpl=None, how=None):",
+    if failing:
+        lines += BAD_DECO
+        for idx, kinds in enumerate(spec["templates"]):
+            lines.append(f"def failing{idx}(slot, gen):")
+            lines += _failed_def(kinds, "'V' + slot", "'V' + slot", "gen", idx, sx, spec.get("fail_pos", "top"), "    ")
+            lines.append("")
+    lines += ["@service", "def lifecycle(cmd=None, slot=None, gen=None, tmpl=None, how=None, pre=None):",
               "    fn = None"]
     for idx in range(len(spec["templates"])):
+        if failing:
+            # the definition that fails and the ordinary one that follows are evaluated by the same service call
+            lines.append(f"    if tmpl == {idx} and pre == 'fail':")
+            lines.append(f"        failing{idx}(slot, gen)")
         lines.append(f"    if tmpl == {idx} and cmd in ('make', 'append', 'lost'):")
         lines.append(f"        fn = fact{idx}(slot, gen)")
         if cells:
@@ -324,13 +492,25 @@ def render(scn: dict) -> dict:
     for name, tmpl in spec["files"].items():
         if tmpl < len(spec["templates"]):
             files[f"pyscript/g_{name}.py"] = _file_src(name, tmpl, spec["templates"][tmpl], 0,
-                                                       name in spec.get("redef", []))
+                                                       name in spec.get("redef", []), spec)
     app = spec.get("app")
     if app:
         tmpls = spec["templates"]
-        files[APP_MAIN] = _app_src("main", app["main"], tmpls[app["main"]], 0, app.get("imports", True))
-        files[APP_SUB] = _app_src("sub", app["sub"], tmpls[app["sub"]], 0)
+        files[APP_MAIN] = _app_src("main", app["main"], tmpls[app["main"]], 0, app.get("imports", True), sx)
+        files[APP_SUB] = _app_src("sub", app["sub"], tmpls[app["sub"]], 0, sx=sx)
     return files
+
+
+def _cell_src(key: str, fname: str, tmpl_idx: int, kinds: list, gen_no: int, spec: dict, after_failed: bool) -> str:
+    """A Jupyter cell that defines the decorated function ``fname`` (optionally after a definition that fails)."""
+    lines = []
+    if after_failed:
+        lines += BAD_DECO + _failed_def(kinds, repr("V" + key), repr("V" + key), str(gen_no), tmpl_idx, spec.get("sx"),
+                                        spec.get("fail_pos", "top"), "") + [""]
+    lines += _decorators(kinds, repr(key), spec.get("sx"))
+    lines += [f"def {fname}(**kw):",
+              f"    sim.mark('run', {key!r}, {gen_no}, {tmpl_idx}, kw.get('trigger_type'), kw.get('trigger_time'), kw.get('var_name'))"]
+    return "\n".join(lines) + "\n"
 
 
 def normalize(scn: dict) -> dict | None:
@@ -384,7 +564,13 @@ def normalize(scn: dict) -> dict | None:
             # (make_racing + unload: everything is unloaded, nothing live is left to lose its service)
         if scn["cfg"].get("steer") and op["kind"] == "cell_drop" and op.get("how") == "del":
             op["how"] = "rebind"  # steered away from finding C09.cell_del
-        if op["kind"] in ("file_edit", "file_edit_racing"):
+        if op["kind"] in ("jup_make",) and "shr" in tmpls[op["tmpl"]]:
+            if not plain:
+                continue
+            op["tmpl"] = plain[0]  # Jupyter cells never declare the shared service name
+        if op["kind"] == "file_edit" and op.get("content", "code") != "code":
+            cur.pop(op["name"], None)  # the file stays, nothing is left in it
+        elif op["kind"] in ("file_edit", "file_edit_racing"):
             other = [n for n in cur if n != op["name"] and "shr" in tmpls[cur[n]]]
             drop = False
             for fld in ("tmpl", "tmpl2"):
@@ -434,6 +620,20 @@ def simplify(scn: dict):
         cand = copy.deepcopy(scn)
         cand["spec"]["app"] = None
         yield normalize(cand)  # drops the app ops
+    sx = scn["spec"].get("sx") or {}
+    if sx.get("watch"):
+        cand = copy.deepcopy(scn)
+        cand["spec"]["sx"]["watch"] = False
+        yield cand
+    for form in sx.get("forms") or []:
+        if len(sx["forms"]) > 1:
+            cand = copy.deepcopy(scn)
+            cand["spec"]["sx"]["forms"].remove(form)
+            yield cand
+    for name in list(scn["spec"].get("failfirst") or []):
+        cand = copy.deepcopy(scn)
+        cand["spec"]["failfirst"].remove(name)
+        yield cand
     for oi, op in enumerate(scn["ops"]):
         cand = None
         if op["kind"] == "file_edit_racing":
@@ -456,6 +656,11 @@ def simplify(scn: dict):
             cand["ops"][oi]["imports"] = True
         if cand is not None:
             yield cand
+        for fld, val in (("after_failed", None), ("content", None), ("reload", None), ("fresh", None)):
+            if op.get(fld):
+                cand = copy.deepcopy(scn)
+                del cand["ops"][oi][fld]
+                yield normalize(cand)
         if op.get("after_ms"):
             cand = copy.deepcopy(scn)
             cand["ops"][oi]["after_ms"] = 0
@@ -480,13 +685,16 @@ CENSUS_KEYS = ("listeners", "services", "webhooks", "mqtt_subs", "event_notify",
 BUILTIN_SERVICES = {"reload", "jupyter_kernel_start", "generate_stubs"}
 
 
-def _census(w: World) -> dict:
+def _census(w: World, kernel_alive: bool = False) -> dict:
     import asyncio
 
     cen = w.census()
     out = {k: cen[k] for k in CENSUS_KEYS}
     out["state_notify"] = {k: v for k, v in cen["state_notify"].items() if v}
-    out["all_tasks"] = sum(1 for t in asyncio.all_tasks(w.loop) if not t.done())
+    if not kernel_alive:
+        # (while a Jupyter kernel is up its own tasks come and go - start-up timer, connections - so the number of
+        # tasks is compared only when no kernel exists)
+        out["all_tasks"] = sum(1 for t in asyncio.all_tasks(w.loop) if not t.done())
     return out
 
 
@@ -565,14 +773,111 @@ class C09World(World):
                             world.c09_flags["unstarted_service_names_live_service"] = True
             return orig_stop(ctx)
 
+        self.net = None
+        if self.cfg.get("c09_jup"):
+            # the TCP seam of the Jupyter kernel (asyncio.start_server) + deterministic uuid / datetime inside it
+            import types
+            import uuid as _uuid
+
+            import custom_components.pyscript.jupyter_kernel as jk
+
+            self.net = N.SimNet(lambda: self.loop.vt)
+            seq = [0]
+
+            def uuid4():
+                seq[0] += 1
+                return _uuid.UUID(int=(0xC09 << 96) | seq[0])
+
+            dt_shim = types.SimpleNamespace(datetime=types.SimpleNamespace(now=lambda: world.clock.local_naive()))
+            out += [patch("custom_components.pyscript.jupyter_kernel.asyncio.start_server", self.net.start_server),
+                    patch.object(jk, "uuid", types.SimpleNamespace(uuid4=uuid4)),
+                    patch.object(jk, "datetime", dt_shim)]
         return out + [patch.object(ServiceDecorator, "start", start), patch.object(GlobalContext, "stop", stop)]
+
+
+JUP_KEY = "c09-secret-key"
+JUP_CHANNELS = [("iopub", "iopub_port", b"SUB"), ("hb", "hb_port", b"REQ"), ("control", "control_port", b"DEALER"),
+                ("stdin", "stdin_port", b"DEALER"), ("shell", "shell_port", b"DEALER")]
+
+
+class JupSession:
+    """A front end attached to one kernel session: the harness' own ZMTP / Jupyter wire client (sim.jupyter_net)."""
+
+    def __init__(self, w: "C09World", no: int) -> None:
+        self.w = w
+        self.no = no
+        self.conns: dict = {}
+        self.n_req = 0
+        self.stale = False   # the integration was unloaded while the session was open
+        self.failed_once = False  # a cell contained a definition that failed in a decorator call
+        self.ctx_name = None
+
+    async def start(self) -> None:
+        from custom_components.pyscript.global_ctx import GlobalContextMgr
+
+        w = self.w
+        var = f"pyscript.c09_jup{self.no}"
+        before = set(GlobalContextMgr.contexts)
+        await w.call_service("pyscript", "jupyter_kernel_start",
+                             {"ip": "127.0.0.1", "key": JUP_KEY, "signature_scheme": "hmac-sha256", "state_var": var,
+                              "transport": "tcp"})
+        await w.settle()
+        st = w.hass.states.get(var)
+        if st is None:
+            raise HarnessError("the kernel did not publish its ports")
+        ports = json.loads(st.state)
+        new = sorted(set(GlobalContextMgr.contexts) - before)
+        self.ctx_name = new[0] if new else None
+        for chan, port_key, sock_type in JUP_CHANNELS:
+            conn = w.net.connect(ports[port_key], f"{chan}{self.no}")
+            await conn.send(N.client_hello(sock_type, None if chan == "iopub" else b""))
+            self.conns[chan] = conn
+        await self.conns["iopub"].send(N.enc_message([b"\x01"]))
+        await w.settle(0.2)
+        for chan, conn in self.conns.items():
+            evs = conn.decoder.events
+            if conn.decoder.error or not evs or evs[0]["k"] != "greeting":
+                raise HarnessError(f"no ZMTP greeting from the kernel on {chan}")
+
+    async def request(self, chan: str, msg_type: str, content: dict) -> list:
+        """Send one request and return the replies (parsed) that arrived on that channel until the loop settled."""
+        w = self.w
+        self.n_req += 1
+        header = {"msg_id": f"c09-{self.no}-{self.n_req}", "session": f"c09-fe{self.no}", "username": "sim",
+                  "date": "2024-05-14T17:00:00Z", "msg_type": msg_type, "version": "5.3"}
+        conn = self.conns[chan]
+        n0 = len(conn.decoder.messages())
+        w.trace.append(["op", "jupyter", w.vts(), self.no, msg_type, content.get("code")])
+        await conn.send(N.enc_message(N.build_wire(JUP_KEY.encode("utf-8"), [], header, {}, {}, content)))
+        await w.settle(0.3)
+        out = [N.parse_jupyter(ev["frames"], JUP_KEY.encode("utf-8")) for ev in conn.decoder.messages()[n0:]]
+        return [m for m in out if m.get("ok")]
+
+    async def execute(self, code: str) -> str:
+        """Run a cell; returns the status of the execute_reply ('ok' / 'error' / 'none')."""
+        replies = await self.request("shell", "execute_request",
+                                     {"code": code, "silent": False, "store_history": True, "user_expressions": {},
+                                      "allow_stdin": False})
+        status = "none"
+        for m in replies:
+            if m.get("type") == "execute_reply":
+                status = str(m["content"].get("status"))
+        self.w.trace.append(["jupyter_reply", self.w.vts(), self.no, status])
+        return status
+
+    async def shutdown(self) -> None:
+        await self.request("control", "shutdown_request", {"restart": False})
+        await self.w.settle(0.2)
 
 
 def run(scn: dict) -> dict:
     spec = scn["spec"]
     templates = spec["templates"]
     cfg = dict(scn["cfg"])
-    cfg["initial_states"] = {"pyscript.p0": ["0", {"a0": 1}], "pyscript.p1": ["0", {"a1": 0}], "pyscript.p2": ["ok", {}]}
+    cfg["initial_states"] = {"pyscript.p0": ["0", {"a0": 1}], "pyscript.p1": ["0", {"a1": 0}], "pyscript.p2": ["ok", {}],
+                             "pyscript.p3": ["ok", {"a3": 1}]}
+    if any(op["kind"].startswith("jup_") for op in scn["ops"]):
+        cfg["c09_jup"] = True
     if spec.get("app"):
         cfg["apps"] = {APP: {}}
     if cfg.get("svc_delay_where", "all") == "start_only":
@@ -582,8 +887,36 @@ def run(scn: dict) -> dict:
     violations: list = []
     state = {"removed_any": False}
 
-    def viol(cls, sig, detail):
+    # Situations of two findings made with this workload (round 5); a violation that the reference model can attribute
+    # to one of them is reported under the finding's own class, with the original class as "symptom":
+    CAUSES = {
+        # a definition evaluated after a user decorator raised (and was caught) in the same evaluation is not active
+        "after_failed": "C09.not_activated_after_failed_decorator_call",
+        # a function defined by a cell of a Jupyter session whose context was stopped by an unload is started and is
+        # then left over at the next unload
+        "stale_jupyter": "C09.started_in_stopped_session_context",
+    }
+    after_fail: set = set()     # (key, gen) of definitions made after a failed decorator call in the same evaluation
+    stale_removed: set = set()  # (key, gen) of definitions of a surviving Jupyter session that were unloaded later
+
+    def viol(cls, sig, detail, cause=None):
         sig = {"subsystem": sub, **sig}
+        if cause == "after_failed":
+            # that finding is repaired in /repo (d53f04c "a user decorator that raises does not keep later definitions
+            # from being activated"): its symptoms are reported under their own class again
+            cause = None
+        if cause == "stale_jupyter" and sub != "new":
+            cause = None  # (that finding is one of the default subsystem: the legacy one refuses such definitions)
+        if cause:
+            sig = {"subsystem": sub, "symptom": cls.split(".", 1)[1]}
+            cls = CAUSES[cause]
+            if cause == "after_failed" and not state.get("after_failed_seen"):
+                state["after_failed_seen"] = True
+                for v in state.pop("census_pending", []):
+                    # census differences seen while such a definition was live, before the probe round that showed it
+                    # not to be active
+                    v["sig"] = {"subsystem": sub, "symptom": v["class"].split(".", 1)[1]}
+                    v["class"] = CAUSES[cause]
         if any("Handler is already defined" in (lg["msg"] or "") for lg in w.logs):
             # from here on the run has diverged at the known webhook-redefinition defect
             sig = {"subsystem": sub, "why": "webhook_handler_already_defined_on_redefinition"}
@@ -591,6 +924,7 @@ def run(scn: dict) -> dict:
         # that is still starting - used to re-label everything after the point of divergence; both are repaired in
         # /repo, so violations are reported under their own class again)
         violations.append({"class": cls, "sig": sig, "detail": detail, "t": w.vts()})
+        return violations[-1]
 
     async def driver(w: World):
         from homeassistant.exceptions import ServiceNotFound
@@ -615,6 +949,8 @@ def run(scn: dict) -> dict:
         expected_extra: list = []   # startup / shutdown markers expected in the current interval
         shared = {"owner": None}    # context that owns pyscript.svc_shared (reference model of the ownership rule)
         shared_calls: set = set()   # (key, gen) run by the probe call of the shared service in the current round
+        victims: set = set()        # keys of definitions that failed in a user decorator: never active
+        jup = {"sess": None, "n": 0}  # the Jupyter session in use (JupSession) and how many were started
         racing: set = set()         # (key, gen) of definitions whose context was stopped while they were in progress:
         #                             whether their startup/shutdown markers appear is don't-care; they must never run
         #                             for an occurrence afterwards
@@ -626,7 +962,18 @@ def run(scn: dict) -> dict:
         def ctx_of(key):
             return key if key.startswith("file_") else "main"
 
-        def define(key, tmpl, where, gen_no):
+        def cause_of_missing(exp, got):
+            """Only expected markers/runs are missing, all of them of definitions made after a failed decorator call."""
+            missing = [e for e in exp if e not in got]
+            extra = [g for g in got if g not in exp]
+            if missing and not extra and all((e[1], e[2]) in after_fail for e in missing):
+                return "after_failed"
+            return None
+
+        def live_after_fail():
+            return any((k, v["gen"]) in after_fail for k, v in live.items())
+
+        def define(key, tmpl, where, gen_no, stale=False):
             if where == "file" and key[len("file_"):] in spec.get("redef", []):
                 racing.add((key, OLD_GEN + gen_no))  # the superseded first definition: its markers are don't-care
                 w.probe("function_defined_twice_in_one_file")
@@ -635,6 +982,21 @@ def run(scn: dict) -> dict:
             live[key] = {"gen": gen_no, "tmpl": tmpl, "where": where}
             if any(k in ("svc", "shr") for k in templates[tmpl][:-1]):
                 w.probe("service_listed_before_other_trigger")
+            if "sx" in templates[tmpl]:
+                forms = _sx_forms(spec.get("sx"))
+                w.probe("second_entity_named_in_state_expression")
+                if (spec.get("sx") or {}).get("watch"):
+                    w.probe("entity_listed_in_watch")
+                elif forms == ["old_attr"]:
+                    w.probe("entity_named_only_as_old_attribute")
+                if not (spec.get("sx") or {}).get("watch") and set(forms) <= {"old", "old_attr"}:
+                    w.probe("entity_named_only_through_old_forms")
+            if stale:
+                # defined by a cell of a Jupyter session that survived unload + set-up: don't-care in what it declares
+                # (handled like a refused definition), but nothing of it may survive the next unload
+                live[key]["refused"] = live[key]["stale"] = True
+                racing.add((key, gen_no))
+                return
             # refused when another context has a live declarer of the shared name; what else of a refused definition
             # is active is not stated (legacy: nothing is set up, new: the manager is rolled back)
             if "shr" in templates[tmpl] and shared["owner"] not in (None, ctx_of(key)):
@@ -661,6 +1023,13 @@ def run(scn: dict) -> dict:
                 expected_extra.append(("run", key, ent["gen"], ent["tmpl"], "time", "shutdown"))
             if "per" in templates[ent["tmpl"]]:
                 w.probe("periodic_trigger_removed")
+            if "sx" in templates[ent["tmpl"]]:
+                w.probe("definition_naming_second_entity_removed")
+            if ent.get("stale") and why in ("unload", "session_end"):
+                # (redefinition / del inside the surviving session release the function object as usual)
+                stale_removed.add((key, ent["gen"]))
+                if why == "unload":
+                    w.probe("jupyter_stale_definition_unloaded")
 
         def define_app():
             """The app has been (re)loaded as a whole, or is gone: the reference model of its two files."""
@@ -678,6 +1047,10 @@ def run(scn: dict) -> dict:
 
         for name, tmpl in spec["files"].items():
             define(f"file_{name}", tmpl, "file", 0)
+            if name in (spec.get("failfirst") or []):
+                victims.add(f"Vfile_{name}")
+                after_fail.add((f"file_{name}", 0))
+                w.probe("file_definition_after_failed_decorator_call")
         define_app()
         if app0:
             w.probe("app_package_loaded")
@@ -687,7 +1060,8 @@ def run(scn: dict) -> dict:
         got_init = sorted(t for t in init_marks if t[4] == "time" and t[5] in ("startup", "shutdown")
                           and (t[1], t[2]) not in racing)
         if got_init != want_init:
-            viol("C09.startup_shutdown", {"when": "initial_load"}, f"initial load: startup markers {got_init}, expected {want_init}")
+            viol("C09.startup_shutdown", {"when": "initial_load"}, f"initial load: startup markers {got_init}, expected {want_init}",
+                 cause_of_missing(want_init, got_init))
         expected_extra.clear()
         mark_pos = len(w.marks)
 
@@ -721,15 +1095,22 @@ def run(scn: dict) -> dict:
                         viol("C09.webhook_raised", {}, f"posting to hook_{key} raised {exc!r}")
             await w.settle(0.05)
             for key in sorted(set(list(live) + [f"file_{n}" for n in FILES] + SLOTS + APP_KEYS
-                                  + [f"K{s}" for s in SLOTS])):
+                                  + [f"K{s}" for s in SLOTS] + ([f"J{s}" for s in SLOTS] if cfg.get("c09_jup") else [])
+                                  + sorted(victims))):
                 svc = f"svc_{key}"
                 should = key in live and "svc" in kinds_of(key) and entry_loaded
                 has = w.hass.services.has_service("pyscript", svc)
                 if key in live and live[key].get("refused"):
                     should = has  # a refused definition: don't-care
                 if has != should:
+                    cause = None
+                    if should and (key, live[key]["gen"]) in after_fail:
+                        cause = "after_failed"
+                    elif not should and any(k == key for k, _ in stale_removed):
+                        cause = "stale_jupyter"
                     viol("C09.service_registration", {"should_exist": should},
-                         f"after {tag}: service pyscript.{svc} exists={has}, reference says {should} (live {sorted(live)})")
+                         f"after {tag}: service pyscript.{svc} exists={has}, reference says {should} (live {sorted(live)})",
+                         cause)
                 if has:
                     try:
                         await w.call_service("pyscript", svc, {"tag": tag}, blocking=True)
@@ -745,7 +1126,9 @@ def run(scn: dict) -> dict:
             if entry_loaded and not has_shared and any(not live[k].get("refused") for k in declarers):
                 viol("C09.service_registration", {"should_exist": True, "shared": True},
                      f"after {tag}: service pyscript.svc_shared is not registered although a live function of the owning "
-                     f"context declares it (live {live})")
+                     f"context declares it (live {live})",
+                     "after_failed" if all((k, live[k]["gen"]) in after_fail for k in declarers
+                                           if not live[k].get("refused")) else None)
             shared_calls.clear()
             if has_shared:
                 n0 = len(w.marks)
@@ -766,7 +1149,11 @@ def run(scn: dict) -> dict:
                                  {"trigger": "service", "shared": True,
                                   "why": "older_declarer_in_same_context_keeps_name" if same_ctx else "unexplained"},
                                  f"after {tag}: pyscript.svc_shared ran {m['args'][1]} gen {m['args'][2]} which is not "
-                                 f"live (live {live})")
+                                 f"live (live {live})",
+                                 # (the function that ran has been redefined *with* the name, so the new definition
+                                 # would have replaced the handler if it were active: not finding C09-K2)
+                                 "after_failed" if m["args"][1] in declarers and not live[m["args"][1]].get("refused")
+                                 and (m["args"][1], live[m["args"][1]]["gen"]) in after_fail else None)
             await w.settle(0.2)
             if entry_loaded:
                 for key in sorted(live):
@@ -785,6 +1172,8 @@ def run(scn: dict) -> dict:
                         if p2 != "zz":
                             exp.append(base + ("state", None, "pyscript.p0"))
                         w.probe("stale_condition_probe")
+                    if "sx" in kinds:
+                        exp.append(base + ("state", None, "pyscript.p0"))
                     if "mqtt" in kinds:
                         exp.append(base + ("mqtt", None))
                     if "hook" in kinds:
@@ -812,7 +1201,8 @@ def run(scn: dict) -> dict:
                     if m["vt"] < state.get("last_op_settled", 0):
                         continue  # fired before the removal had settled
                     viol("C09.dead_function_ran", {"trigger": "periodic"},
-                         f"after {tag}: periodic run of {key} gen {gen_no} which is not live (live {live})")
+                         f"after {tag}: periodic run of {key} gen {gen_no} which is not live (live {live})",
+                         "stale_jupyter" if (key, gen_no) in stale_removed else None)
                     continue
                 got.append(tup)
             mark_pos = len(w.marks)
@@ -824,27 +1214,66 @@ def run(scn: dict) -> dict:
                     dead = [g for g in extra if g[1] not in live or live[g[1]]["gen"] != g[2]]
                     cls = "C09.dead_function_ran" if dead else "C09.unexpected_run"
                     viol(cls, {"trigger": str((dead or extra)[0][4])},
-                         f"after {tag}: runs {extra} are not expected (live {live}, p2={p2})")
-                if missing:
-                    kinds_missing = sorted({str(e[4]) for e in missing})
-                    viol("C09.live_function_did_not_run", {"trigger": "+".join(kinds_missing)},
-                         f"after {tag}: expected runs {missing} did not happen (live {live}, p2={p2}); got {got}")
+                         f"after {tag}: runs {extra} are not expected (live {live}, p2={p2})",
+                         "stale_jupyter" if dead and all((g[1], g[2]) in stale_removed for g in extra) else None)
+                for part, cause in (([e for e in missing if (e[1], e[2]) in after_fail], "after_failed"),
+                                    ([e for e in missing if (e[1], e[2]) not in after_fail], None)):
+                    if part:
+                        kinds_missing = sorted({str(e[4]) for e in part})
+                        viol("C09.live_function_did_not_run", {"trigger": "+".join(kinds_missing)},
+                             f"after {tag}: expected runs {part} did not happen (live {live}, p2={p2}); got {got}", cause)
                 if dup and not extra:
                     viol("C09.ran_twice", {"trigger": str(dup[0][4])}, f"after {tag}: {dup} ran more than once")
 
         def census_check(tag):
-            key = json.dumps([sorted((k, v["tmpl"], bool(v.get("refused"))) for k, v in live.items()), entry_loaded])
-            cen = _census(w)
+            sess = jup["sess"]
+            key = [sorted((k, v["tmpl"], bool(v.get("refused"))) for k, v in live.items()), entry_loaded]
+            if sess is not None:
+                key.append("session_survived_unload" if sess.stale else "session_open")
+            key = json.dumps(key)
+            cen = _census(w, sess is not None)
             if key in census_by_key:
                 w.probe("same_live_set_seen_twice")
                 diff = _diff(census_by_key[key][1], cen)
                 if diff:
-                    viol("C09.census_depends_on_history", {"tables": "+".join(sorted(diff))},
-                         f"after {tag}: live set {key} had census {census_by_key[key][0]!r}-time values, now differs: {diff}")
+                    cause = None
+                    if stale_removed:
+                        cause = "stale_jupyter"
+                    elif (live_after_fail() or census_by_key[key][2]) and state.get("after_failed_seen"):
+                        # (only in a run in which a definition made after a failed decorator call is seen not to be
+                        # active - possibly by the probe round that follows: census_pending)
+                        cause = "after_failed"
+                    rec = viol("C09.census_depends_on_history", {"tables": "+".join(sorted(diff))},
+                               f"after {tag}: live set {key} had census {census_by_key[key][0]!r}-time values, now differs: {diff}",
+                               cause)
+                    if cause is None and (live_after_fail() or census_by_key[key][2]):
+                        state.setdefault("census_pending", []).append(rec)
             elif not state.get("cell_del_applied"):
-                census_by_key[key] = (tag, cen)  # (never a reference while the run may have diverged at C09.cell_del)
+                # (never a reference while the run may have diverged at C09.cell_del)
+                census_by_key[key] = (tag, cen, live_after_fail())
             return cen
 
+        def unloaded():
+            """The integration has been unloaded: nothing is live; an open Jupyter session survives as a kernel."""
+            if jup["sess"] is not None:
+                if any(v["where"] == "jupyter" and not v.get("stale") for v in live.values()):
+                    w.probe("jupyter_functions_unloaded")
+                jup["sess"].stale = True
+            for k in list(live):
+                remove(k, "unload")
+
+        async def jup_end():
+            sess = jup["sess"]
+            if sess is None:
+                return
+            await sess.shutdown()
+            for k in [k for k, v in live.items() if v["where"] == "jupyter"]:
+                remove(k, "session_end")
+            jup["sess"] = None
+
+        # (like after every op: cycle collection is not part of the property - e.g. the validation of a watch= argument
+        # leaves the superseded first definition of a file in a reference cycle)
+        await settle_gc()
         census_check("start")
         await probe_round("start")
         for i, op in enumerate(scn["ops"]):
@@ -877,7 +1306,14 @@ def run(scn: dict) -> dict:
                     list_n += 1
                     key = f"L{list_n}"
                 gens[key] = gens.get(key, 0) + 1
-                await w.call_service("pyscript", "lifecycle", {"cmd": kind, "slot": key, "gen": gens[key], "tmpl": op["tmpl"]})
+                data = {"cmd": kind, "slot": key, "gen": gens[key], "tmpl": op["tmpl"]}
+                if op.get("after_failed"):
+                    # the same service call first makes a definition that fails in a user decorator (caught)
+                    data["pre"] = "fail"
+                    victims.add("V" + key)
+                    after_fail.add((key, gens[key]))
+                    w.probe("definition_after_failed_decorator_call")
+                await w.call_service("pyscript", "lifecycle", data)
                 define(key, op["tmpl"], "closure", gens[key])
             elif kind == "cell_make":
                 key = f"K{op['slot']}"
@@ -918,14 +1354,31 @@ def run(scn: dict) -> dict:
                 state["cell_del_ending"] = True  # the cells themselves are released
             elif kind == "file_edit":
                 name = op["name"]
+                content = op.get("content", "code")
+                by_name = op.get("reload") == "name"
                 file_gen[name] += 1
-                file_tmpl[name] = op["tmpl"]
+                file_tmpl[name] = op["tmpl"] if content == "code" else None
                 file_present[name] = True
-                w.write_file(f"pyscript/g_{name}.py", _file_src(name, op["tmpl"], templates[op["tmpl"]], file_gen[name],
-                                                                name in spec.get("redef", [])))
-                await w.reload()
+                w.write_file(f"pyscript/g_{name}.py", _file_text(name, content, op["tmpl"], templates[op["tmpl"]],
+                                                                 file_gen[name], name in spec.get("redef", []), spec))
+                # an argument-less reload, or one that names the global context of the file that has just changed
+                await w.reload(f"file.g_{name}" if by_name else None)
                 w.probe("file_reloaded")
-                define(f"file_{name}", op["tmpl"], "file", file_gen[name])
+                if by_name:
+                    w.probe("file_reloaded_by_name")
+                if content == "code":
+                    define(f"file_{name}", op["tmpl"], "file", file_gen[name])
+                    if name in (spec.get("failfirst") or []):
+                        victims.add(f"Vfile_{name}")
+                        after_fail.add((f"file_{name}", file_gen[name]))
+                        w.probe("file_definition_after_failed_decorator_call")
+                else:
+                    # the file is still there but declares nothing any more
+                    if f"file_{name}" in live:
+                        w.probe("file_emptied" if content == "empty" else "file_comment_only")
+                        if content == "empty" and by_name:
+                            w.probe("file_emptied_and_reloaded_by_name")
+                    remove(f"file_{name}", "file_emptied")
             elif kind == "file_edit_racing":
                 # two edits of one file reloaded a few ms apart: the functions of the first edit are still being
                 # started (or have just been) when the second reload stops their context
@@ -936,7 +1389,7 @@ def run(scn: dict) -> dict:
                 if name in spec.get("redef", []):
                     racing.add((key, OLD_GEN + file_gen[name]))
                 w.write_file(f"pyscript/g_{name}.py", _file_src(name, op["tmpl"], templates[op["tmpl"]], file_gen[name],
-                                                                name in spec.get("redef", [])))
+                                                                name in spec.get("redef", []), spec))
                 await w.reload()
                 if op["after_ms"]:
                     await w.sleep(op["after_ms"] / 1000.0)
@@ -945,15 +1398,19 @@ def run(scn: dict) -> dict:
                 file_tmpl[name] = op["tmpl2"]
                 file_present[name] = True
                 w.write_file(f"pyscript/g_{name}.py", _file_src(name, op["tmpl2"], templates[op["tmpl2"]], file_gen[name],
-                                                                name in spec.get("redef", [])))
+                                                                name in spec.get("redef", []), spec))
                 await w.reload()
                 define(key, op["tmpl2"], "file", file_gen[name])
+                if name in (spec.get("failfirst") or []):
+                    victims.add(f"Vfile_{name}")
+                    after_fail.add((key, file_gen[name]))
             elif kind == "app_edit":
                 part = op["part"]
                 if part == "sub":
                     app_st["sub_gen"] += 1
                     app_st["sub"] = op["tmpl"]
-                    w.write_file(APP_SUB, _app_src("sub", op["tmpl"], templates[op["tmpl"]], app_st["sub_gen"]))
+                    w.write_file(APP_SUB, _app_src("sub", op["tmpl"], templates[op["tmpl"]], app_st["sub_gen"],
+                                                   sx=spec.get("sx")))
                     # the sibling is loaded through the main file's import only: while it is not imported it is
                     # not part of the loaded app and a change of it reloads nothing
                     reloaded = app_st["main_present"] and app_st["imports"]
@@ -972,7 +1429,7 @@ def run(scn: dict) -> dict:
                     app_st["main_present"] = True
                     w.delete_file(APP_MAIN_COMMENTED)
                     w.write_file(APP_MAIN, _app_src("main", op["tmpl"], templates[op["tmpl"]], app_st["main_gen"],
-                                                    app_st["imports"]))
+                                                    app_st["imports"], spec.get("sx")))
                     reloaded = True
                 await w.reload()
                 if reloaded:
@@ -988,13 +1445,55 @@ def run(scn: dict) -> dict:
                 app_st["main_present"] = False
                 await w.reload()
                 define_app()
+            elif kind == "jup_make":
+                sess = jup["sess"]
+                if sess is not None and sess.stale and op.get("fresh"):
+                    await jup_end()  # the front end gives up the session that survived the unload ...
+                    sess = None
+                if sess is None:
+                    jup["n"] += 1
+                    sess = jup["sess"] = JupSession(w, jup["n"])  # ... and starts a new one
+                    await sess.start()
+                    w.probe("jupyter_session_started")
+                key = f"J{op['slot']}"
+                if key in live:
+                    w.probe("jupyter_function_redefined")
+                gens[key] = gens.get(key, 0) + 1
+                if op.get("after_failed"):
+                    victims.add("V" + key)
+                    sess.failed_once = True
+                    w.probe("jupyter_cell_after_failed_decorator_call")
+                if sess.failed_once:
+                    after_fail.add((key, gens[key]))  # the session evaluates all its cells with one evaluator
+                if sess.stale:
+                    w.probe("jupyter_cell_after_unload_and_setup")
+                w.probe("jupyter_cell_defined_function")
+                await sess.execute(_cell_src(key, f"fn_{op['slot']}", op["tmpl"], templates[op["tmpl"]], gens[key], spec,
+                                             bool(op.get("after_failed"))))
+                define(key, op["tmpl"], "jupyter", gens[key], stale=sess.stale)
+            elif kind == "jup_del":
+                key = f"J{op['slot']}"
+                if key not in live or jup["sess"] is None:
+                    continue  # (the name is not bound in the session: the cell would only raise NameError)
+                w.probe("jupyter_function_deleted")
+                await jup["sess"].execute(f"del fn_{op['slot']}\n")
+                remove(key, "jupyter_del")
+            elif kind == "jup_end":
+                if jup["sess"] is None:
+                    continue
+                w.probe("jupyter_session_shut_down")
+                await jup_end()
             elif kind == "file_delete":
                 name = op["name"]
+                # (a reload that names a context that neither exists nor has a file is an error: argument-less then)
+                by_name = op.get("reload") == "name" and file_present[name]
                 if file_present[name]:
                     w.probe("file_deleted")
+                    if by_name:
+                        w.probe("file_deleted_and_reloaded_by_name")
                 file_present[name] = False
                 w.delete_file(f"pyscript/g_{name}.py")
-                await w.reload()
+                await w.reload(f"file.g_{name}" if by_name else None)
                 remove(f"file_{name}", "file_delete")
             elif kind == "reload":
                 await w.reload()
@@ -1009,8 +1508,7 @@ def run(scn: dict) -> dict:
                 w.probe("stop_while_definition_in_progress")
                 if op["then"] == "unload":
                     await w.unload_entry()
-                    for k in list(live):
-                        remove(k, "unload")
+                    unloaded()
                     entry_loaded = False
                     state["cell_del_ending"] = True
                     kind = "unload"
@@ -1023,8 +1521,7 @@ def run(scn: dict) -> dict:
                     state["cell_del_ending"] = True  # the script's old context is gone
             elif kind == "unload":
                 await w.unload_entry()
-                for key in list(live):
-                    remove(key, "unload")
+                unloaded()
                 entry_loaded = False
                 state["cell_del_ending"] = True
             elif kind == "setup":
@@ -1034,7 +1531,7 @@ def run(scn: dict) -> dict:
                 entry_loaded = True
                 w.probe("setup_again")
                 for name in FILES:
-                    if file_present[name]:
+                    if file_present[name] and file_tmpl.get(name) is not None:
                         define(f"file_{name}", file_tmpl[name], "file", file_gen[name])
                 define_app()
             await settle_gc()
@@ -1060,7 +1557,8 @@ def run(scn: dict) -> dict:
                 diff = _diff(pre, now_c)
                 if diff:
                     viol("C09.leftover_after_unload", {"tables": "+".join(sorted(diff))},
-                         f"after unload Home Assistant is not back to its pre-setup census: {diff}")
+                         f"after unload Home Assistant is not back to its pre-setup census: {diff}",
+                         "stale_jupyter" if stale_removed else None)
                 # markers of the unload itself
                 exp = sorted(expected_extra, key=repr)
                 expected_extra.clear()
@@ -1069,13 +1567,15 @@ def run(scn: dict) -> dict:
                               and not ((m["args"][1], m["args"][2]) in racing and m["args"][4] == "time")), key=repr)
                 mark_pos = len(w.marks)
                 if got != exp:
-                    viol("C09.startup_shutdown", {"when": "unload"}, f"unload: markers {got}, expected {exp}")
+                    viol("C09.startup_shutdown", {"when": "unload"}, f"unload: markers {got}, expected {exp}",
+                         cause_of_missing(exp, got))
                 continue
             await probe_round(tag)
         state["live_end"] = copy.deepcopy(live)
         state["entry_loaded"] = entry_loaded
         state["mark_pos"] = len(w.marks)
         state["racing"] = set(racing)
+        state["after_fail"] = set(after_fail)
 
     w.run(driver)
     # ---- HA stop: shutdown markers exactly once for every live definition with a shutdown trigger
@@ -1086,7 +1586,10 @@ def run(scn: dict) -> dict:
                       if m["args"][4] == "time" and m["args"][5] in ("startup", "shutdown")
                       and (m["args"][1], m["args"][2]) not in state.get("racing", ())), key=repr)
         if got != exp:
-            viol("C09.startup_shutdown", {"when": "ha_stop"}, f"at Home Assistant stop: markers {got}, expected {exp}")
+            missing = [e for e in exp if e not in got]
+            viol("C09.startup_shutdown", {"when": "ha_stop"}, f"at Home Assistant stop: markers {got}, expected {exp}",
+                 "after_failed" if missing and not [g for g in got if g not in exp]
+                 and all((e[1], e[2]) in state.get("after_fail", ()) for e in missing) else None)
     if w.ha_exceptions:
         viol("C09.escaped_to_ha", {}, f"Home Assistant logged/handled: {w.ha_exceptions[:2]}")
     violations.sort(key=lambda v: v.get("t", 0.0))
